@@ -43,6 +43,9 @@ def variant_strategy(i, n, versioned, shallow_ok=True):
         opts += [st.fixed_dictionaries({"k": st.just("call"), "callee": st.sampled_from(callees), "shift": st.integers(0, 2), "add": st.integers(0, 3)}),
                  st.fixed_dictionaries({"k": st.just("call"), "callee": st.sampled_from(callees), "shift": st.integers(0, 2), "add": st.integers(0, 3)}),
                  st.fixed_dictionaries({"k": st.just("catch"), "callee": st.sampled_from(callees), "add": st.integers(0, 3)})]
+        if i > 0:
+            # (not for the root: most histories should still produce a value)
+            opts.append(st.fixed_dictionaries({"k": st.just("sub"), "callee": st.sampled_from(callees)}))
     if len(callees) >= 2:
         opts.append(st.fixed_dictionaries({"k": st.just("call2"), "callees": st.lists(st.sampled_from(callees), min_size=2, max_size=2)}))
         # both callees get the same argument: common calls beneath them are duplicates within the execution
